@@ -84,6 +84,16 @@ class Capture:
         self.in_trcl = False
         self.tids = {}
         self.conv_live = None
+        self.tr_ids = None      # the set returned by extract_tr_surf_ids
+
+    def tr_order(self):
+        '''Order in which the 1000*cell+surf ids were inserted into
+        dic_surface_t4 (= iteration order of the int set), or None.'''
+        if self.tr_ids is None or self.up is None:
+            return None
+        wanted = set(self.tr_ids)
+        keys = [k for k, _ in self.up['items0']]
+        return [k for k in keys if k in wanted]
 
     def tid(self, transform):
         if not transform:
@@ -123,6 +133,13 @@ def hooks(cap):
     orig_ct = CellConversion.cell_transform
     orig_setitem = CollectionDict.__setitem__
     orig_parse = ParseMCNPCell.parse
+    from t4_geom_convert.Kernel.Volume import ConstructVolumeT4 as cvt4
+    orig_extract = cvt4.extract_tr_surf_ids
+
+    def extract_tr_surf_ids(mcnp_dict):
+        result = orig_extract(mcnp_dict)
+        cap.tr_ids = sorted(int(k) for k in result)
+        return result
 
     class LoggingDict(OrderedDict):
         '''The cell dictionary; reports the insertion of NEW keys made
@@ -267,6 +284,7 @@ def hooks(cap):
     CellConversion.apply_trcl = apply_trcl
     CellConversion.cell_transform = cell_transform
     ParseMCNPCell.parse = parse
+    cvt4.extract_tr_surf_ids = extract_tr_surf_ids
     CellConversion.pot_convert = pot_convert
     WriteT4Geometry.remove_duplicate_surfaces = dedup
     t4main.convertMCNPGeometry = convert_geometry
@@ -279,6 +297,7 @@ def hooks(cap):
         CellConversion.apply_trcl = orig_trcl
         CellConversion.cell_transform = orig_ct
         ParseMCNPCell.parse = orig_parse
+        cvt4.extract_tr_surf_ids = orig_extract
         cap.conv_live = None
         CellConversion.pot_convert = orig_convert
         WriteT4Geometry.remove_duplicate_surfaces = orig_dedup
